@@ -454,6 +454,9 @@ def second_open_paren_detected_after_first_open_paren_was_closed(bFirstTokenFoun
 
 def open_paren_after_assignment_operator(assignment_operator, lTokens):
     iToken = get_index_of_token_in_list(assignment_operator, lTokens)
+    if iToken is None:
+        # e.g. a deferred constant: there is no assignment operator, hence no array after it
+        return False
     return is_next_token_ignoring_whitespace(parser.open_parenthesis, iToken, lTokens)
 
 
